@@ -403,10 +403,12 @@ func run(c Case) (v *vcore.Violation, stt stats) {
 			}
 			m := ms[ev.Sess]
 			from, to := m.owner, 1-m.owner
+			// go-upf re-keys the node *object* the session was established under: exactly the sessions established under
+			// the same association follow (another object may carry the same id after an earlier takeover)
 			clash := false
 			for _, a := range ms {
 				for _, b := range ms {
-					if a.alive && b.alive && a.owner == from && b.owner == to && a.spec.CP == b.spec.CP {
+					if a.alive && b.alive && a.spec.Node == m.spec.Node && b.owner == to && b.spec.Node != m.spec.Node && a.spec.CP == b.spec.CP {
 						clash = true // the two could no longer be told apart at the new owner's socket
 					}
 				}
@@ -427,8 +429,9 @@ func run(c Case) (v *vcore.Violation, stt stats) {
 			if !accepted {
 				return vcore.Violatef("takeover-refused", "%s: Modification naming node %d for session #%d not accepted", what, to, ev.Sess), stt
 			}
+			_ = from
 			for _, a := range ms {
-				if a.owner == from {
+				if a.spec.Node == m.spec.Node {
 					a.owner = to
 				}
 			}
